@@ -46,6 +46,7 @@ type cVar struct {
 	Reqs  int    `json:"reqs"` // how many times the request is issued on the same instance
 	Bef   int    `json:"bef"`  // number of Flame.Before handlers
 	BStop int    `json:"bstop"` // which of them returns true (0 = none)
+	Nest  bool   `json:"nest"` // group handlers spread over two nested groups, with a sibling route registered after the one under test
 	HS    bool   `json:"hs"`   // middleware installed through Handlers() (replacing a dummy stack) instead of Use()
 	Meth  string `json:"meth"` // request method (GET / HEAD / POST): a HEAD response forwards no body but is "written" all the same
 	RH    bool   `json:"rh"`   // a custom ReturnHandler is mapped in the injector: it replaces the default table
@@ -369,6 +370,7 @@ func chainVarFor(c *chainCase, idx int) cVar {
 	v.RH = rng.Intn(5) == 0
 	v.Meth = []string{"GET", "GET", "HEAD", "POST"}[rng.Intn(4)]
 	v.HS = rng.Intn(3) == 0
+	v.Nest = rng.Intn(2) == 0
 	if rng.Intn(4) == 0 {
 		v.Bef = 1 + rng.Intn(2)
 		if rng.Intn(3) == 0 {
@@ -447,9 +449,19 @@ func chainReplay(raw json.RawMessage, idx int, tr *traceWriter) {
 		if meth == "" {
 			meth = "GET"
 		}
-		if g > 0 {
-			f.Group("/g", func() { f.Route(meth, "/r", rest[g:]) }, rest[:g]...)
-		} else {
+		// a sibling route registered AFTER the route under test: its handler must never show up in this chain
+		sibling := func() {
+			f.Route(meth, "/sibling", []flamego.Handler{func(c flamego.Context) { x.ev(map[string]interface{}{"e": "enter", "h": 99}) }})
+		}
+		switch {
+		case g >= 2 && v.Nest:
+			k := 1 + (n+g)%(g-1)
+			f.Group("/g", func() {
+				f.Group("", func() { f.Route(meth, "/r", rest[g:]); sibling() }, rest[k:g]...)
+			}, rest[:k]...)
+		case g > 0:
+			f.Group("/g", func() { f.Route(meth, "/r", rest[g:]); sibling() }, rest[:g]...)
+		default:
 			f.Route(meth, "/g/r", rest)
 		}
 	}
